@@ -256,9 +256,10 @@ Proof. unfold row_ordered, row_small, ex_row. cbn. lia. Qed.
 
 Example ex_row_sym :
   let f := shape_of [] [] ex_row in
-  time_rdsym f = (0.4)%float /\ time_ptsym f = (Z2F 7 / Z2F 13)%float /\
-  time_rdsym (rename_shape f) = (0.6)%float /\
-  time_ptsym (rename_shape f) = (1 - Z2F 7 / Z2F 13)%float /\
-  (time_ptsym f =? 0x1.13b13b13b13b1p-1)%float = true /\
-  (time_ptsym (rename_shape f) =? 0x1.d89d89d89d89ep-2)%float = true.
+  time_rdsym f = (0x1.999999999999ap-2)%float /\                   (* 6/15 = 0.4 *)
+  time_ptsym f = (0x1.13b13b13b13b1p-1)%float /\                   (* 7/13 *)
+  time_rdsym (rename_shape f) = (0x1.3333333333333p-1)%float /\    (* 0.6 *)
+  time_ptsym (rename_shape f) = (0x1.d89d89d89d89ep-2)%float /\    (* 6/13 *)
+  period f = 15%Z /\ time_rise f = 6%Z /\ time_decay f = 9%Z /\
+  time_peak f = 7%Z /\ time_trough f = 6%Z.
 Proof. vm_compute. repeat split. Qed.
